@@ -171,20 +171,33 @@ def rqRemove (rq : List (UInt32 × DChunk)) (t : UInt32) : List (UInt32 × DChun
 
 /-! ### process_data_payload (non-DCEP part) -/
 
-/-- the reassembly / dispatch block for a chunk whose channel `dc` was found -/
-def deliverTo (s : Pl) (dc : Chan) (c : DChunk) : Pl :=
-  let buf0 := if c.bBit then [] else dc.reasm
-  let buf := buf0 ++ c.data
-  if c.eBit then
-    let dc1 := { dc with reasm := [] }
-    if c.uBit || !dc.ordered then
-      { s with chans := setChan s.chans (dc1.emit (.msg buf)) }
-    else
-      let r := (getStream s.streams c.sid).enqueue c.ssn buf
-      { s with chans := setChan s.chans (dc1.emitAll r.2),
-               streams := setStream s.streams c.sid r.1 }
+/-- `open_channel_once`: Connecting → Open with an `Open` event, exactly once -/
+def openOnce (dc : Chan) : Chan :=
+  if dc.state == 0 then ({ dc with state := 1 }.emit .open_) else dc
+
+/-- the reassembly / dispatch block for a chunk whose (already announced) channel is `dc`.
+A fragment without the B bit that finds the buffer empty has lost its beginning to a FORWARD-TSN
+and is dropped. -/
+def deliverTo' (s : Pl) (dc : Chan) (c : DChunk) : Pl :=
+  if !c.bBit && dc.reasm.isEmpty then s
   else
-    { s with chans := setChan s.chans { dc with reasm := buf } }
+    let buf0 := if c.bBit then [] else dc.reasm
+    let buf := buf0 ++ c.data
+    if c.eBit then
+      let dc1 := { dc with reasm := [] }
+      if c.uBit || !dc.ordered then
+        { s with chans := setChan s.chans (dc1.emit (.msg buf)) }
+      else
+        let r := (getStream s.streams c.sid).enqueue c.ssn buf
+        { s with chans := setChan s.chans (dc1.emitAll r.2),
+                 streams := setStream s.streams c.sid r.1 }
+    else
+      { s with chans := setChan s.chans { dc with reasm := buf } }
+
+/-- the block of `process_data_payload` for a chunk whose channel `dc` was found: data on a
+pre-negotiated channel announces `Open` first if that has not happened yet -/
+def deliverTo (s : Pl) (dc : Chan) (c : DChunk) : Pl :=
+  deliverTo' s (if dc.negotiated then openOnce dc else dc) c
 
 /-- `process_data_payload` for a chunk that is not DCEP -/
 def procData (s : Pl) (c : DChunk) : Pl :=
@@ -332,11 +345,13 @@ def fwdStream (s : Pl) (p : UInt16 × UInt16) : Pl :=
       | some dc => { s1 with chans := setChan s1.chans (dc.emitAll r.2) }
       | none => s1
 
-/-- `handle_forward_tsn` — NOTE the plain numeric comparisons `new > old` and `tsn > new`. -/
+/-- `handle_forward_tsn` — NOTE the plain numeric comparisons `new > old` and `tsn > new`.
+Whatever was collected of partly skipped messages is forgotten (every reassembly buffer cleared). -/
 def handleForwardTsn (s : Rx) (newCum : UInt32) (pairs : List (UInt16 × UInt16)) : Rx :=
   if newCum > s.cum then
+    let pl1 := { s.pl with chans := s.pl.chans.map (fun c => { c with reasm := [] }) }
     { s with cum := newCum, rq := s.rq.filter (fun e => e.1 > newCum),
-             pl := pairs.foldl fwdStream s.pl }
+             pl := pairs.foldl fwdStream pl1 }
   else s
 
 end RtcModel.Sctp
